@@ -18,7 +18,8 @@ RULE = ("case = (zone, local date, 'now' time of day, minute set); every minute 
         "that do not exist that day (DST gap) are counted as unspecified and skipped. Additional Hypothesis sub-checks: "
         "arbitrary epochs 0..2^32-1 decode to the zoneinfo wall time; random dates 1971..2105; malformed strings raise. "
         "Non-trivial = zone != UTC or date within one day of a transition; distinct by (zone, date, minute) / (zone, epoch) / string."
-        " 'now' carries a sub-second part in two of three cases; malformed strings include digit separators, signs, inner/trailing blanks, a third digit, non-ASCII digits and a trailing line end. text-forms: the clock text as a str-subclass instance and as a (str, Enum) member.")
+        " 'now' carries a sub-second part in two of three cases; malformed strings include digit separators, signs, inner/trailing blanks, a third digit, non-ASCII digits and a trailing line end. text-forms: the clock text as a str-subclass instance and as a (str, Enum) member."
+        ' clock-moves-on: 2..7 encodings in one process while the host clock moves forward by 1 s .. 7 d from a moment around local midnight (labels count local-date changes inside one UTC day); each encoding is judged against the local date of its own moment.')
 ASSUMPTIONS = [
     "time_machine freezes time.time/localtime/strftime and sets TZ+tzset for ZoneInfo destinations",
     "zoneinfo and glibc read the same system tz database",
